@@ -759,6 +759,10 @@ def sc_transpose(P):
                 forms.append(('negative positions %s' % ([i - nd for i in perm],), ([i - nd for i in perm],)))
         for label, args in forms:
             out.append(('%d-d array, %s' % (nd, label), (lambda dims=dims, sizes=sizes, args=args: ([A(P, dims, sizes)] + list(args), {}, OPTS(P)))))
+    # names of more than one character (a name is a string, not a sequence of names)
+    out.append(("1-d array, name 'time' as argument", lambda: ([A(P, ('time',), (3,)), 'time'], {}, OPTS(P))))
+    out.append(("2-d array, names ['lat', 'time'] as arguments", lambda: ([A(P, ('time', 'lat'), (3, 2)), 'lat', 'time'], {}, OPTS(P))))
+    out.append(("2-d array, set of names", lambda: ([A(P, ('time', 'lat'), (3, 2)), {'lat', 'time'}], {}, OPTS(P))))
     return out
 
 
@@ -798,6 +802,10 @@ def sc_flatten(P):
     out.append(("3-d ['c', 'a', 'b'], set ['a', 'c']", lambda: ([A(P, *cab), {'a', 'c'}], {}, OPTS(P))))
     out.append(("3-d ['c', 'a', 'b'], set ['a', 'b', 'c']", lambda: ([A(P, *cab), {'a', 'b', 'c'}], {}, OPTS(P))))
     out.append(("3-d ['c', 'a', 'b'], tuple ['a', 'c']", lambda: ([A(P, *cab), ('a', 'c')], {}, OPTS(P))))
+    # positions in a set are positions, like in a tuple
+    out.append(('3-d, set of positions [0, 2]', lambda: ([A(P, *SHAPES[3]), {0, 2}], {}, OPTS(P))))
+    out.append(("3-d, set of a name and a position ['a', 2]", lambda: ([A(P, *SHAPES[3]), {'a', 2}], {}, OPTS(P))))
+    out.append(('3-d, set of negative positions [-1, -3]', lambda: ([A(P, *SHAPES[3]), {-1, -3}], {}, OPTS(P))))
     return out
 
 
@@ -1103,6 +1111,7 @@ def sc_stack(P):
     out.append(('too many keys', lambda: ([two()], {'axis': 'k', 'keys': ['p', 'q', 'r']}, O())))
     out.append(('a non-DimArray element', lambda: ([[arr_of(P, 'A', xy), 3]], {'axis': 'k', 'keys': ['p', 'q']}, O())))
     out.append(('align=True', lambda: ([two()], {'axis': 'k', 'keys': ['p', 'q'], 'align': True}, O(align_=align_stub(P)))))
+    out.append(('second array with permuted dimensions, align=True', lambda: ([[arr_of(P, 'A', xy), arr_of(P, 'B', yx)]], {'axis': 'k', 'keys': ['p', 'q'], 'align': True}, O(align_=align_stub(P)))))
     out.append(('no axis name', lambda: ([two()], {}, O())))
     return out
 
@@ -1138,6 +1147,8 @@ def sc_concatenate(P):
     out.append(('secondary labels differ, align=True', lambda: ([[A(xy), B(xy, {'y': 'L_y2'})]], {'axis': 'x', 'align': True},
                                                                  O(align_=align_stub(P)))))
     out.append(('3-d align=True', lambda: ([[A(xyz), B(xyz)]], {'axis': 'y', 'align': True}, O(align_=align_stub(P)))))
+    out.append(('3-d, second array with permuted secondary dimensions, align=True', lambda: ([[A(xyz), B(xzy)]], {'axis': 'x', 'align': True}, O(align_=align_stub(P)))))
+    out.append(('second array with permuted dimensions, align=True', lambda: ([[A(xy), B(yx)]], {'axis': 'x', 'align': True}, O(align_=align_stub(P)))))
     out.append(('a Dataset element', lambda: ([[A(xy), Obj('DS', types=('Dataset',))]], {'axis': 'x'}, O())))
     out.append(('a scalar element', lambda: ([[A(xy), 3]], {'axis': 'x'}, O())))
     out.append(('not a list', lambda: ([A(xy)], {'axis': 'x'}, O())))
